@@ -1,22 +1,29 @@
 """C04 - engine instances are isolated; interleaved queries do not interfere.
 
 A case is a set of per-engine operation histories plus one schedule (a merge of them).  The
-implementation runs it (a) every engine alone on fresh YP objects, (b) interleaved by the schedule at
-generator-step granularity, (c) every engine on its own thread with a tiny switch interval; the model
-(Engine/World.v, evaluated inside Coq) runs the schedule.  Per-engine observation sequences of (a), (b),
-(c) and of the model must all be equal.
+implementation runs it (a) every engine alone in a fresh interpreter (subprocess), (a') back to back in one
+process, (b) interleaved by the schedule at generator-step granularity, (c) on threads (every history on
+THREAD_COPIES threads, THREAD_ROUNDS rounds on fresh instances, tiny switch interval), (d) per engine and slot:
+the history without the generators of the other slots; the model (Engine/World.v, evaluated inside Coq) runs
+the schedule.  Per-engine observation sequences of (a), (a'), (b), every run of (c) and of the model must all be
+equal; the slot observations of (d) must equal those of (b).  (c) is a test: the model and the theorems are at
+generator-step granularity.
 """
-import sys, threading, gc
+import sys, os, json, threading, subprocess
 from lib import terms
 from lib.terms import g_term, g_str, g_list, g_nat, g_bool, g_option
 
 ID = 'C04'
 IMPORTS = ['Unify.Unify', 'Engine.World', 'Engine.RunWorld']
-THEOREMS = []
+THEOREMS = ['C04_init_world_inv', 'C04_step_local', 'C04_step_noninterference', 'C04_interleave_alone',
+            'C04_interleave_alone_init', 'C04_interleaved_eq_alone', 'C04_merges_indistinguishable', 'C04_every_merge', 'C04_back_to_back_is_merge', 'C04_merge_eq_back_to_back',
+            'C04_same_engine_slots', 'C04_slots_alone', 'C04_slots_none', 'C04_slots_start', 'C04_reach_invariant', 'C04_reach_sinv',
+            'C04_disjoint_queries_alone', 'C04_world_disjoint_queries_alone', 'C04_same_engine_disjoint', 'C04_unify_frame']
 RULE = ('2-3 engines, histories of 6-24 operations each over {atom, assert_fact/assertz/asserta (3 API variants), retract/'
         'retractall (4 API variants), register_function (fixed/variadic), load_script_from_string of compiled Prolog '
         '(overwrite and chained; the same text in several engines, and different texts defining the same names), clear, '
-        'start/next/close/drop/drain of query generators in 3 slots}, merged by a random schedule with bursts; every '
+        'start/next/close/drop/drain of query generators in 3 slots, peek at variables between steps}, merged by a random '
+        'schedule with bursts; every '
         'history ends with read-back queries of all predicates. Non-trivial: two engines hold different contents under '
         'one predicate name and at some point of the schedule at least two query generators are suspended on an answer '
         'simultaneously. Distinct by hash of the case.')
@@ -29,13 +36,16 @@ TRUSTED_BASE = [
     'compiled clauses are modelled as (head arguments, list of goals): the translation of Prolog text to Python text is '
     'the business of C01/C11; here the compiler is only used to produce the scripts that are loaded',
     'CPython: dropping the last reference to a generator closes it at once; creation of a query generator runs no code',
-    'thread schedules finer than a generator step are outside the model: run (c) is a test, not a proof (partial)',
+    'thread schedules finer than a generator step are outside the model: run (c) (12 threaded runs of every history per '
+    'case) is a test, not a proof (partial)',
+    'the fresh interpreter of run (a) is a subprocess of the same Python with the same PYTHONPATH',
     'harness: generators, drivers, canonicalisation (harness/props/c04.py), parser of printed observations',
 ]
 ASSUMPTIONS = ['engines do not share Variable objects; simultaneously suspended queries of one engine use disjoint variables',
+               'queries are read-only (clause bodies call facts, rules and =); database-writing goals inside bodies belong to C14',
                'cases in which a match needs a cyclic term (model error code 2) are unspecified and skipped',
                'evaluate_bounded (interpreter-wide recursion limit) is outside the statement']
-CASE_TIMEOUT = 30
+CASE_TIMEOUT = 120
 COQ_CHUNK = 25
 FUEL = 4000
 
@@ -73,6 +83,8 @@ def g_op(case, op):
         return '(OClose %s)' % g_nat(op[1])
     if k == 'drain':
         return '(ODrain %s)' % g_nat(op[1])
+    if k == 'peek':
+        return '(OPeek %s)' % g_list([g_term(a) for a in op[1]])
     raise ValueError(op)
 
 def schedule_ops(case):
@@ -292,6 +304,8 @@ class EngineDriver:
                     else:
                         self.gens[q] = DEAD
                 return ['closed']
+            if k == 'peek':
+                return ['peek'] + self.read_answer([self.build(a) for a in op[1]])
             if k == 'drain':
                 q = op[1]
                 if q not in self.gens:
@@ -322,7 +336,8 @@ def _prepare(case):
     if '_compiled' not in case:
         case['_compiled'] = [compiled(s) for s in case['scripts']]
 
-def run_alone(case):
+def run_back_to_back(case):
+    """all engines in this process, one whole history after the other"""
     out = []
     for e in range(case['neng']):
         d = EngineDriver(case, e)
@@ -330,6 +345,85 @@ def run_alone(case):
             d.step(op)
         d.finish()
         out.append(d.obs)
+    return out
+
+_ALONE_SNIPPET = 'from props import c04; c04._alone_main()'
+
+def _alone_main():
+    """entry point of the fresh interpreter: one engine, its history, nothing else was ever imported or run"""
+    req = json.loads(sys.stdin.read())
+    case = req['case']
+    d = EngineDriver(case, req['eid'])
+    for op in case['hist'][req['eid']]:
+        d.step(op)
+    ok = d.finish()
+    sys.stdout.write(json.dumps({'obs': d.obs, 'unbound': ok}))
+
+def run_alone_fresh(case):
+    """every engine alone in a fresh interpreter (no state of any kind can come from another engine)"""
+    out = []
+    for e in range(case['neng']):
+        small = {'neng': case['neng'], 'scripts': [], '_compiled': case['_compiled'],
+                 'hist': [h if k == e else [] for k, h in enumerate(case['hist'])]}
+        r = subprocess.run([sys.executable, '-B', '-c', _ALONE_SNIPPET], input=json.dumps({'case': small, 'eid': e}),
+                           capture_output=True, text=True, timeout=CASE_TIMEOUT, env=os.environ)
+        if r.returncode != 0:
+            raise RuntimeError('fresh interpreter failed: ' + r.stderr[-400:])
+        out.append(json.loads(r.stdout)['obs'])
+    return out
+
+SLOT_OPS = ('start', 'next', 'close', 'drain')
+
+def _vars_of(t, acc):
+    if t[0] == 'v':
+        acc.add(t[1])
+    elif t[0] == 'f':
+        for a in t[2]:
+            _vars_of(a, acc)
+    return acc
+
+def slots_independent(hist):
+    """the slots of this history in which queries run, if the history qualifies for the same-engine oracle: at least two
+    slots, the queries of different slots have no variable in common, and no assert / retract mentions a query variable
+    (then the only way one query could influence another is the interference the property excludes)"""
+    per = {}
+    for op in hist:
+        if op[0] == 'start':
+            acc = per.setdefault(op[1], set())
+            for a in op[3]:
+                _vars_of(a, acc)
+    if len(per) < 2:
+        return []
+    qs = sorted(per)
+    for i in range(len(qs)):
+        for j in range(i + 1, len(qs)):
+            if per[qs[i]] & per[qs[j]]:
+                return []
+    allq = set().union(*per.values())
+    for op in hist:
+        args = op[3] if op[0] == 'assert' else op[2] if op[0] == 'retract' else []
+        for a in args:
+            if _vars_of(a, set()) & allq:
+                return []
+    return qs
+
+def run_slots_alone(case):
+    """for every qualifying engine and each of its slots q: the same history in which the generators of the other slots
+    are never created or advanced; returns [engine, slot, [(index in the history, observation)]]"""
+    out = []
+    for e in range(case['neng']):
+        hist = case['hist'][e]
+        for q in slots_independent(hist):
+            d = EngineDriver(case, e)
+            seen = []
+            for k, op in enumerate(hist):
+                if op[0] == 'peek' or (op[0] in SLOT_OPS and op[1] != q):
+                    continue
+                d.step(op)
+                if op[0] in SLOT_OPS:
+                    seen.append([k, d.obs[-1]])
+            d.finish()
+            out.append([e, q, seen])
     return out
 
 def run_interleaved(case):
@@ -346,38 +440,68 @@ def run_interleaved(case):
     unbound = all([d.finish() for d in ds])
     return [d.obs for d in ds], shared, unbound
 
+THREAD_COPIES = 2      # threads per engine history (every thread has its own YP instances)
+THREAD_ROUNDS = 6      # times every thread runs its history, each time on a fresh instance
+
 def run_threads(case):
-    ds = [EngineDriver(case, e) for e in range(case['neng'])]
-    barrier = threading.Barrier(len(ds))
+    """every history on THREAD_COPIES threads at once, THREAD_ROUNDS times in a row on fresh instances, all threads started
+    together with a tiny switch interval.  Returns per engine the distinct observation sequences that occurred (canonical form; there must be exactly one, the one of the
+    run alone), the errors and the number of histories run."""
+    jobs = [(e, k) for e in range(case['neng']) for k in range(THREAD_COPIES)]
+    barrier = threading.Barrier(len(jobs))
     errs = []
-    def work(d):
+    seen = {j: [] for j in jobs}
+    def work(j):
         try:
             barrier.wait()
-            for op in case['hist'][d.eid]:
-                d.step(op)
+            for _ in range(THREAD_ROUNDS):
+                d = EngineDriver(case, j[0])
+                for op in case['hist'][j[0]]:
+                    d.step(op)
+                if not d.finish():
+                    errs.append('a variable stayed bound')
+                seen[j].append(d.obs)
         except BaseException as ex:       # pragma: no cover
             errs.append(repr(ex))
     old = sys.getswitchinterval()
     sys.setswitchinterval(1e-6)
     try:
-        ts = [threading.Thread(target=work, args=(d,)) for d in ds]
+        ts = [threading.Thread(target=work, args=(j,)) for j in jobs]
         for t in ts:
             t.start()
         for t in ts:
             t.join()
     finally:
         sys.setswitchinterval(old)
-    for d in ds:
-        d.finish()
-    return [d.obs for d in ds], errs
+    out = []
+    for e in range(case['neng']):
+        distinct = []
+        for j in jobs:
+            if j[0] == e:
+                for o in seen[j]:
+                    r = canon_impl([o])[0]
+                    if r not in distinct:
+                        distinct.append(r)
+        out.append(distinct)
+    return out, errs, sum(len(v) for v in seen.values())
+
+def _quiet_unraisable(u, _old=sys.unraisablehook):
+    # a match that builds a cyclic term (unspecified, the case is skipped) recurses to the interpreter's limit; a weakref
+    # callback of the verification hook's WeakSet that fires at that depth cannot run and is reported on stderr: noise
+    if u.exc_type is RecursionError:
+        return
+    _old(u)
 
 def impl(case):
+    sys.unraisablehook = _quiet_unraisable
     case = dict(case)
     _prepare(case)
-    alone = run_alone(case)
+    alone = run_alone_fresh(case)
     inter, shared, unbound = run_interleaved(case)
-    thr, errs = run_threads(case)
-    return {'alone': alone, 'interleaved': inter, 'threads': thr, 'thread_errors': errs,
+    thr, errs, nthr = run_threads(case)
+    b2b = run_back_to_back(case)
+    solo = run_slots_alone(case)
+    return {'slots_alone': solo, 'alone': alone, 'back_to_back': b2b, 'interleaved': inter, 'threads': thr, 'thread_errors': errs, 'thread_runs': nthr,
             'shared_atom_objects': shared, 'all_unbound_at_end': unbound}
 
 # ------------------------------------------------------------------ comparison
@@ -406,8 +530,8 @@ def canon_model_trace(case, mo):
             if raw not in ids:
                 ids[raw] = len(ids)
             per[e].append(['atom', ids[raw]])
-        elif tag == 'ans':
-            per[e].append(['ans'] + canon_answer(o[1:]))
+        elif tag in ('ans', 'peek'):
+            per[e].append([tag] + canon_answer(o[1:]))
         elif tag == 'all':
             per[e].append(['all', [canon_answer(a) for a in o[1]], o[2]])
         else:
@@ -419,8 +543,8 @@ def canon_impl(seqs):
     for s in seqs:
         r = []
         for o in s:
-            if o[0] == 'ans':
-                r.append(['ans'] + canon_answer(o[1:]))
+            if o[0] in ('ans', 'peek'):
+                r.append([o[0]] + canon_answer(o[1:]))
             elif o[0] == 'all':
                 r.append(['all', [canon_answer(a) for a in o[1]], o[2]])
             else:
@@ -463,15 +587,29 @@ def compare(case, io, mo):
 def oracle(case, io):
     if not isinstance(io, dict):
         return None
-    a, b, c = canon_impl(io['alone']), canon_impl(io['interleaved']), canon_impl(io['threads'])
+    a, b, c = canon_impl(io['alone']), canon_impl(io['interleaved']), io['threads']
+    bb = canon_impl(io['back_to_back'])
     if any(o and o[0] == 'raised' and o[1] == 'RecursionError' for s in a for o in s):
         return None            # cyclic term: unspecified
     if a != b:
-        return 'an engine observes something else when the engines are interleaved than when it runs alone: ' + _first_diff(b, a)
+        return 'an engine observes something else when the engines are interleaved than when it runs alone in a fresh interpreter: ' + _first_diff(b, a)
+    if a != bb:
+        return 'an engine observes something else when the engines run back to back in one process than when it runs alone in a fresh interpreter: ' + _first_diff(bb, a)
     if io['thread_errors']:
         return 'thread run raised: %s' % io['thread_errors'][:2]
-    if a != c:
-        return 'an engine observes something else when the engines run on threads than when it runs alone: ' + _first_diff(c, a)
+    for e, runs in enumerate(c):
+        for r in runs:
+            if r != a[e]:
+                return ('an engine observes something else when the engines run on threads than when it runs alone in a fresh '
+                        'interpreter: ' + _first_diff([r], [a[e]]).replace('engine 0', 'engine %d' % e, 1))
+        if not runs:
+            return 'thread run produced nothing for engine %d' % e
+    for e, q, seen in io.get('slots_alone', []):
+        for k, o in seen:
+            x, y = canon_impl([[o]])[0][0], b[e][k]
+            if x != y:
+                return ('a query of engine %d sees something else when other queries of the same engine (over other variables) are '
+                        'suspended than when it is the only one: slot %d, operation %d: %r vs %r' % (e, q, k, y, x))
     if io['shared_atom_objects']:
         return 'two engine instances returned the same Atom object'
     if not io['all_unbound_at_end']:
@@ -541,17 +679,25 @@ def gen_history(rng, case, eid, nops, base_facts):
     ops = []
     nextvar = [0]
     live = {}            # slot -> variables of the query in it
+    mix = rng.random() < 0.5     # asserts may mention variables of suspended queries (else: same-engine oracle applies)
+    nfacts = {}          # rough number of facts per key, to steer next() towards generators that still have answers
+    est = {}             # slot -> rough number of answers left
+    rule_names = set(n for n, _ in RULE_PREDS)
     def fresh(n):
         r = list(range(nextvar[0], nextvar[0] + n))
         nextvar[0] += n
         return r
     def fact_args(ar, allow_live=True):
         vs = fresh(rng.choice([0, 0, 1, 2]))
-        if allow_live and live and rng.random() < 0.3:
+        if mix and allow_live and live and rng.random() < 0.3:
             vs = vs + rng.choice(list(live.values()))
         return [rand_open(rng, vs, 2, 0.35) for _ in range(ar)]
     def query_goal():
-        name, ar = rng.choice(base_facts * 3 + FACT_PREDS + RULE_PREDS + [('s', 2), ('r', 1), ('zz', 1)])
+        have = sorted(k for k, c in nfacts.items() if c > 0)
+        if have and rng.random() < 0.5:
+            name, ar = rng.choice(have)
+        else:
+            name, ar = rng.choice(base_facts * 3 + FACT_PREDS + RULE_PREDS + [('s', 2), ('r', 1), ('zz', 1)])
         vs = fresh(max(1, ar))
         args = []
         for i in range(ar):
@@ -565,12 +711,14 @@ def gen_history(rng, case, eid, nops, base_facts):
     for (name, ar) in base_facts:
         for _ in range(rng.choice([2, 3, 4])):
             ops.append(['assert', True, name, fact_args(ar, False), rng.randrange(3)])
+            nfacts[(name, ar)] = nfacts.get((name, ar), 0) + 1
     nops += len(ops)
     while len(ops) < nops:
         r = rng.random()
         if r < 0.22:
             name, ar = rng.choice(FACT_PREDS)
             ops.append(['assert', rng.random() < 0.7, name, fact_args(ar), rng.randrange(3)])
+            nfacts[(name, ar)] = nfacts.get((name, ar), 0) + 1
         elif r < 0.30:
             name, ar = rng.choice(FACT_PREDS)
             vs = fresh(2)
@@ -587,6 +735,7 @@ def gen_history(rng, case, eid, nops, base_facts):
                 ops.append(['register', name, ar, rows])
         elif r < 0.48:
             ops.append(['clear'])
+            nfacts.clear()
         elif r < 0.55:
             ops.append(['atom', rng.choice(ATOMS + ['[]', 'p', 'new atom'])])
         elif r < 0.66 or not live:
@@ -594,8 +743,17 @@ def gen_history(rng, case, eid, nops, base_facts):
             name, args, vs = query_goal()
             ops.append(['start', q, name, args])
             live[q] = vs
+            est[q] = nfacts.get((name, len(args)), 0) + (2 if name in rule_names else 0)
+        elif r < 0.88:
+            more = [q for q in live if est.get(q, 0) > 0]
+            q = rng.choice(more) if more and rng.random() < 0.75 else rng.choice(list(live))
+            est[q] = est.get(q, 0) - 1
+            ops.append(['next', q])
         elif r < 0.92:
-            ops.append(['next', rng.choice(list(live))])
+            # look at variables between two steps: those of the suspended queries and a few others
+            vs = [v for q in live for v in live[q]] + fresh(1)
+            k = rng.choice([1, 2, 3])
+            ops.append(['peek', [rand_open(rng, vs, 1, 0.8) for _ in range(k)]])
         elif r < 0.96:
             q = rng.choice(list(live))
             ops.append(['close', q, rng.randrange(2)])
@@ -640,7 +798,7 @@ def gen_case(rng, big=False):
     return case
 
 def gen(rng, tier):
-    n = 260 if tier == 'quick' else 4000
+    n = 260 if tier == 'quick' else 3000
     return [gen_case(rng, big=(tier != 'quick' and i % 10 == 0)) for i in range(n)]
 
 def builtin_corpus():
@@ -662,6 +820,25 @@ def builtin_corpus():
           ['next', 0], ['next', 1]]
     h1 = [['atom', 'a'], ['clear'], ['atom', 'a'], ['assert', False, 'p', [a('b')], 1], ['start', 0, 'p', [v(0)]], ['drain', 0]]
     L.append({'neng': 2, 'scripts': [], 'hist': [h0, h1], 'sched': [0, 0, 0, 1, 0, 1, 0, 1, 0, 1, 0, 1, 0, 1, 0, 0]})
+    # three engines: the same name registered with different rows, the same script chained twice, clear of one engine while
+    # the generators of the others are suspended; variables are looked at between the steps
+    script = [['t', 1, [[[v(0)], [['w', [v(0), v(1)]]]], [[a('z')], []]]]]
+    def hist(x, y, clear):
+        h = [['register', 'w', 2, [[a(x), a(y)], [a(y), a(x)]]], ['load', False, 0], ['load', False, 0], ['atom', x],
+             ['start', 0, 't', [v(0)]], ['next', 0], ['peek', [v(0), v(5)]], ['start', 1, 'w', [v(1), v(2)]], ['next', 1],
+             ['peek', [f('f', v(0), v(1), v(2))]], ['next', 0], ['next', 1], ['next', 0]]
+        if clear:
+            h += [['clear'], ['atom', x], ['next', 0], ['start', 2, 't', [v(3)]], ['drain', 2]]
+        else:
+            h += [['next', 0], ['next', 0], ['atom', x], ['close', 1, 1], ['peek', [v(1), v(2)]]]
+        return h
+    hs = [hist('a', 'b', False), hist('c', 'd', True), hist('a', 'd', False)]
+    sched = []
+    for k in range(max(len(h) for h in hs)):
+        for e in (2, 0, 1):
+            if k < len(hs[e]):
+                sched.append(e)
+    L.append({'neng': 3, 'scripts': [script], 'hist': hs, 'sched': sched})
     return L
 
 # ------------------------------------------------------------------ reporting
@@ -720,30 +897,47 @@ def describe(case):
     return {'scripts': [pl_script(s) for s in case['scripts']],
             'schedule': ['engine %d: %s' % (e, sop(op)) for e, op in schedule_ops(case)]}
 
+def _without(case, e, drop):
+    """the case without the operations of engine e whose positions are in drop (their places in the schedule go too)"""
+    c = {k: v for k, v in case.items() if k != '_compiled'}
+    c['hist'] = [list(h) for h in case['hist']]
+    c['hist'][e] = [op for k, op in enumerate(case['hist'][e]) if k not in drop]
+    sched = []
+    seen = 0
+    for x in case['sched']:
+        if x == e:
+            seen += 1
+            if seen - 1 in drop:
+                continue
+        sched.append(x)
+    c['sched'] = sched
+    return c
+
 def shrink(case):
-    # drop one operation (and its place in the schedule), later operations first
+    # big pieces first: the whole history of one engine, halves and quarters of a history, then single operations
+    # (later operations first)
+    for e in range(case['neng']):
+        n = len(case['hist'][e])
+        if n > 1:
+            yield _without(case, e, set(range(n)))
+    for e in range(case['neng']):
+        n = len(case['hist'][e])
+        for parts in (2, 4, 8):
+            if n >= 2 * parts:
+                step = n // parts
+                for i in reversed(range(parts)):
+                    yield _without(case, e, set(range(i * step, n if i == parts - 1 else (i + 1) * step)))
     for e in range(case['neng']):
         for k in reversed(range(len(case['hist'][e]))):
-            c = dict(case)
-            c['hist'] = [list(h) for h in case['hist']]
-            del c['hist'][e][k]
-            sched = []
-            seen = 0
-            for x in case['sched']:
-                if x == e:
-                    if seen == k:
-                        seen += 1
-                        continue
-                    seen += 1
-                sched.append(x)
-            c['sched'] = sched
-            c.pop('_compiled', None)
-            yield c
+            yield _without(case, e, {k})
 
 def distribution(cases, obs):
     d = {'engines': {}, 'ops': {}, 'history_len': {}, 'max_suspended': {}, 'answers_per_next': {'ans': 0, 'done': 0},
-         'raised': 0, 'scripts': {}}
+         'raised': 0, 'scripts': {}, 'same_engine_oracle_runs': 0, 'same_engine_oracle_steps': 0}
     for c, o in zip(cases, obs):
+        if isinstance(o, dict):
+            d['same_engine_oracle_runs'] += len(o.get('slots_alone', []))
+            d['same_engine_oracle_steps'] += sum(len(x[2]) for x in o.get('slots_alone', []))
         d['engines'][str(c['neng'])] = d['engines'].get(str(c['neng']), 0) + 1
         d['scripts'][str(len(c['scripts']))] = d['scripts'].get(str(len(c['scripts'])), 0) + 1
         for h in c['hist']:
